@@ -63,6 +63,15 @@ check("C14", "exploration",
   "EVM value transfers are not BitXHub-native and not driven; admin grants are recognised from role status queries.",
   "runtime monitoring: conservation invariant over state-store balances at block boundaries + per-transfer delta oracle", "DESIGN.md §5 C14")
 
+check("C03", "exploration",
+  "IBTPs whose proof validity for the origin chain is known by construction (sha256 match; rule doubles true / first-byte / trap / fuel-burn / none / unregistered; inter-BitXHub multi-signatures with valid, duplicate, unregistered, garbage and wrong-status signers), under rule changes through governance and chain logouts, serial and parallel verification, blocks of 1-12 IBTPs; plus external accounts trying the plain-invocation entry points with a victim's next IBTP. Oracle: invalid => FAILED, not delivered, nothing but sender nonce/fee and admin balances changes; counters and statuses after every block equal what the verified-and-accepted IBTPs produced; valid and in order => accepted; a dead worker is a violation.",
+  "Rules are harness-authored WASM doubles (data, not code under test); cryptographic forgeries and other rules are out of reach; no traffic of a chain while its master-rule update is pending.",
+  "runtime monitoring: by-construction proof-validity oracle + state-diff and counter monitors over executed blocks", "DESIGN.md §5 C03")
+check("C17", "exploration",
+  "The BVM dispatch surface is enumerated by reflection and classified by a committed table (internal / reserved); thousands of single-transaction blocks invoke classified methods directly as outsider / admin of another appchain / governance admin (internal only) with well-typed arguments naming live victims (open transactions, an open proposal, registered chains/services), audit on and off. Oracle: receipt FAILED and state-store diff within {caller, admins}; victim's interchain counters and transaction statuses unchanged after every call.",
+  "The table model/acl.go is the specification of which entry points are internal/reserved (transcribed from the statement); unclassified methods are only checked for 'victim unchanged'.",
+  "runtime monitoring: reflection-enumerated access-control sweep with key-level state-diff oracle", "DESIGN.md §5 C17")
+
 ALL = [f"C{i:02d}" for i in range(1, 21)]
 REASON_PENDING = "check not built yet in this round; see DESIGN.md §5 for the planned monitor (no claim is made until the check runs clean on the unchanged tree)"
 
